@@ -1,4 +1,11 @@
 // C02 — Query results match the SQL definition of the query (engine vs. reference semantics).
+//
+//	c02 extract   truth tables of the engine's own 3VL operators, comparison operators, IN-list and
+//	              BETWEEN, dumped by running the freshly compiled sql/expression code on the
+//	              domain {NULL,0,1,2} → Gms/Generated/C02.lean (closed by `decide` against M1)
+//	c02 run       generated databases + query terms: SQL text on the real engine, the term on the
+//	              Lean reference semantics (drv_c02), canonical result multisets/sequences diffed
+//	c02 sql       run the statements on stdin on a fresh engine (manual replay of witnesses)
 package main
 
 import (
@@ -7,8 +14,12 @@ import (
 	"os"
 	"strings"
 
+	"github.com/dolthub/go-mysql-server/sql"
+	"github.com/dolthub/go-mysql-server/sql/expression"
+	"github.com/dolthub/go-mysql-server/sql/types"
 	"github.com/dolthub/go-mysql-server/verifharness/hx"
 	"github.com/dolthub/go-mysql-server/verifharness/hx/eng"
+	"github.com/dolthub/go-mysql-server/verifharness/sqlgen"
 )
 
 func main() {
@@ -16,7 +27,7 @@ func main() {
 		sqlMode()
 		return
 	}
-	hx.Main(nil, nil)
+	hx.Main(extract, run)
 }
 
 // sqlMode: run the statements read from stdin (one per line) on a fresh engine and print the
@@ -32,7 +43,7 @@ func sqlMode() {
 			continue
 		}
 		r := e.Query(ctx, q)
-		fmt.Printf("%s\n  => %s  types=%v", q, eng.Canon(r, true), r.Types)
+		fmt.Printf("%s\n  => %s  types=%v", q, r.Class(), r.Types)
 		if r.Err != nil {
 			fmt.Printf(" err=%v", r.Err)
 		}
@@ -43,6 +54,179 @@ func sqlMode() {
 		for _, row := range r.Rows {
 			txt = append(txt, "["+strings.Join(row, ",")+"]")
 		}
-		fmt.Printf("\n  text: %s\n", strings.Join(txt, " "))
+		fmt.Printf("\n  rows: %s\n", strings.Join(txt, " "))
 	}
+}
+
+// ---------------------------------------------------------------------------------------------
+// Facts
+
+var dom = []interface{}{nil, int64(0), int64(1), int64(2)}
+
+func lit(v interface{}) sql.Expression {
+	if v == nil {
+		return expression.NewLiteral(nil, types.Null)
+	}
+	return expression.NewLiteral(v, types.Int64)
+}
+
+func leanOpt(v interface{}) (string, error) {
+	switch x := v.(type) {
+	case nil:
+		return "none", nil
+	case bool:
+		if x {
+			return "some 1", nil
+		}
+		return "some 0", nil
+	case int8:
+		return fmt.Sprintf("some %d", x), nil
+	case int64:
+		return fmt.Sprintf("some %d", x), nil
+	case int:
+		return fmt.Sprintf("some %d", x), nil
+	}
+	return "", fmt.Errorf("unexpected result %T %v", v, v)
+}
+
+func extract(a hx.ExtractArgs) error {
+	ctx := sql.NewEmptyContext()
+	lf := hx.NewLeanFile("Gms.Generated.C02", "sql/expression/logic.go", "sql/expression/boolean.go", "sql/expression/comparison.go",
+		"sql/expression/in.go", "sql/expression/between.go", "sql/expression/isnull.go", "sql/expression/istrue.go")
+	lf.Comment("Truth tables obtained by RUNNING the freshly compiled sql/expression operators on {NULL,0,1,2}.")
+	lf.Comment("Entry: (operands…, result); NULL = none; TRUE/FALSE = some 1 / some 0.")
+	eval := func(e sql.Expression) (string, error) {
+		var v interface{}
+		var err error
+		if p := hx.Safe(func() { v, err = e.Eval(ctx, nil) }); p != "" {
+			return "", fmt.Errorf("panic evaluating %s: %s", e, p)
+		}
+		if err != nil {
+			return "", fmt.Errorf("error evaluating %s: %v", e, err)
+		}
+		return leanOpt(v)
+	}
+	opt := func(v interface{}) string { s, _ := leanOpt(v); return s }
+
+	bin := func(name string, mk func(l, r sql.Expression) sql.Expression) error {
+		var rows []string
+		for _, x := range dom {
+			for _, y := range dom {
+				r, err := eval(mk(lit(x), lit(y)))
+				if err != nil {
+					return err
+				}
+				rows = append(rows, fmt.Sprintf("(%s, %s, %s)", opt(x), opt(y), r))
+			}
+		}
+		lf.Raw(fmt.Sprintf("def %s : List (Option Int × Option Int × Option Int) := [\n  %s]\n", name, strings.Join(rows, ",\n  ")))
+		return nil
+	}
+	un := func(name string, mk func(c sql.Expression) sql.Expression) error {
+		var rows []string
+		for _, x := range dom {
+			r, err := eval(mk(lit(x)))
+			if err != nil {
+				return err
+			}
+			rows = append(rows, fmt.Sprintf("(%s, %s)", opt(x), r))
+		}
+		lf.Raw(fmt.Sprintf("def %s : List (Option Int × Option Int) := [%s]\n", name, strings.Join(rows, ", ")))
+		return nil
+	}
+	tern := func(name string, mk func(a, b, c sql.Expression) sql.Expression) error {
+		var rows []string
+		for _, x := range dom {
+			for _, y := range dom {
+				for _, z := range dom {
+					r, err := eval(mk(lit(x), lit(y), lit(z)))
+					if err != nil {
+						return err
+					}
+					rows = append(rows, fmt.Sprintf("(%s, %s, %s, %s)", opt(x), opt(y), opt(z), r))
+				}
+			}
+		}
+		lf.Raw(fmt.Sprintf("def %s : List (Option Int × Option Int × Option Int × Option Int) := [\n  %s]\n", name, strings.Join(rows, ",\n  ")))
+		return nil
+	}
+	steps := []error{
+		bin("andTable", expression.NewAnd),
+		bin("orTable", expression.NewOr),
+		bin("xorTable", expression.NewXor),
+		bin("eqTable", func(l, r sql.Expression) sql.Expression { return expression.NewEquals(l, r) }),
+		bin("neTable", func(l, r sql.Expression) sql.Expression { return expression.NewNot(expression.NewEquals(l, r)) }),
+		bin("ltTable", func(l, r sql.Expression) sql.Expression { return expression.NewLessThan(l, r) }),
+		bin("leTable", func(l, r sql.Expression) sql.Expression { return expression.NewLessThanOrEqual(l, r) }),
+		bin("gtTable", func(l, r sql.Expression) sql.Expression { return expression.NewGreaterThan(l, r) }),
+		bin("geTable", func(l, r sql.Expression) sql.Expression { return expression.NewGreaterThanOrEqual(l, r) }),
+		bin("nseqTable", func(l, r sql.Expression) sql.Expression { return expression.NewNullSafeEquals(l, r) }),
+		un("notTable", func(c sql.Expression) sql.Expression { return expression.NewNot(c) }),
+		un("isNullTable", func(c sql.Expression) sql.Expression { return expression.NewIsNull(c) }),
+		un("isTrueTable", func(c sql.Expression) sql.Expression { return expression.NewIsTrue(c) }),
+		un("isFalseTable", func(c sql.Expression) sql.Expression { return expression.NewIsFalse(c) }),
+		tern("inTable", func(x, y, z sql.Expression) sql.Expression { return expression.NewInTuple(x, expression.NewTuple(y, z)) }),
+		tern("notInTable", func(x, y, z sql.Expression) sql.Expression { return expression.NewNotInTuple(x, expression.NewTuple(y, z)) }),
+		tern("betweenTable", func(x, y, z sql.Expression) sql.Expression { return expression.NewBetween(x, y, z) }),
+	}
+	for _, err := range steps {
+		if err != nil {
+			return err
+		}
+	}
+	return lf.Write(a.Out)
+}
+
+// ---------------------------------------------------------------------------------------------
+// Correspondence
+
+// Cell canonicalises one result cell by the statically known type of the output column.
+func Cell(text string, isNull bool, ty sqlgen.Ty) string {
+	if isNull {
+		return "null"
+	}
+	if ty == sqlgen.TStr {
+		return hx.HexS(text)
+	}
+	return sqlgen.CanonInt(text)
+}
+
+func run(a hx.RunArgs) error {
+	out := hx.NewOut(a.OutDir)
+	defer out.Close()
+	out.Rule = "a generated database (1-3 tables, <=3 columns, <=6 rows, NULLs, duplicate rows, int and varchar columns, optional secondary index) " +
+		"and a type-directed random query term (depth <=4) printed as SQL for the engine and as an s-expression for the Lean reference semantics; " +
+		"a case is non-trivial when the engine returned at least one row, the query has at least two relational operators and the data has a NULL"
+	r := hx.NewRand(a.Seed)
+	nDb, perDb := 60, 12
+	if a.Thorough {
+		nDb, perDb = 2500, 16
+	}
+	rn := sqlgen.Runner{Out: out, Tag: "c02"}
+	// corpus first
+	for _, c := range sqlgen.Corpus() {
+		rn.Open(c.Db)
+		for _, q := range c.Queries {
+			rn.Case(q.Q, q.Tys, q.Ordered, &sqlgen.Printer{Db: c.Db})
+		}
+	}
+	g := sqlgen.NewGen(r, sqlgen.Default())
+	for i := 0; i < nDb; i++ {
+		db := g.GenDb()
+		rn.Open(db)
+		for k := 0; k < perDb; k++ {
+			q, tys := g.Query(r.Range(1, 4))
+			ordered := false
+			if r.Chance(1, 3) {
+				q = g.OrderLimit(q, tys, r.Chance(1, 3))
+				ordered = true
+			}
+			p := &sqlgen.Printer{Db: db, NoFuse: r.Chance(1, 10), CTE: r.Chance(1, 8), FuseGroupProject: false}
+			rn.Case(q, tys, ordered, p)
+		}
+	}
+	for k, v := range g.Stats {
+		out.StatN(k, v)
+	}
+	return nil
 }
